@@ -625,7 +625,7 @@ class ListBox(Widget, WidgetContainerMixin):
             rows = 0
 
             focused_w, idx = self.body.get_focus()
-            if focused_w:
+            if focused_w is not None:
                 rows += focused_w.rows((cols,), focus)
 
                 prev, pos = self._body.get_prev(idx)
